@@ -5,7 +5,8 @@
    [rec]/[wh] (how nested code and while$ loops are run) are universally quantified in the
    per-built-in laws; [exec n] / [while_loop n] are the instances the interpreter uses. *)
 From Pybtex Require Import Base.Prelude Base.PyChar Base.PyStr Model.BibtexStr Model.Wrap Model.Names Model.NameFormat Model.Bst Model.BstReal
-  Spec.BstSem Spec.BstDoc Spec.BstTyping Proofs.Bst Proofs.BstSort Proofs.BstSem Proofs.BstLaws Proofs.BstTyping Proofs.BstOrder Proofs.BstDoc Proofs.BstReal.
+  Spec.BstSem Spec.BstDoc Spec.BstTyping Proofs.Bst Proofs.BstSort Proofs.BstSem Proofs.BstLaws Proofs.BstTyping Proofs.BstOrder Proofs.BstDoc Proofs.BstDocSound Proofs.BstReal Proofs.BstCommands.
+From Pybtex Require Model.Citations Spec.Citations Model.Engines.
 From Coq Require Import Permutation Sorted.
 
 (* --- more fuel never changes the outcome of a run that ended (normally or with an error) *)
@@ -293,9 +294,9 @@ Print Assumptions doc_step.
 
 (* conversely, on operands of the kinds the type checker accepts, a successful step of a code-free built-in IS an
    instance of its documented rule: on well-typed operands the model and the documentation coincide step by step *)
-Theorem doc_sound_step : forall fmt cw G ent rec wh call b s s1 st st',
-  check_builtin G ent call b s = Some s1 -> control b = false ->
-  state_ok G ent st -> sabs (st_stack st) s ->
+Theorem doc_sound_step : forall fmt cw G ent tys rec wh call cid b s s1 st st',
+  check_builtin G ent tys call cid b s = Some s1 -> control b = false ->
+  state_ok G ent tys st -> sabs (st_stack st) s ->
   builtin_step fmt cw rec wh b st = Ok st' -> builtin_doc fmt cw b st st'.
 Proof. exact Proofs.BstDoc.doc_sound_step. Qed.
 Print Assumptions doc_sound_step.
@@ -306,6 +307,27 @@ Theorem doc_complete : forall fmt cw st p st',
   bigsteps fmt cw (builtin_doc fmt cw) st p st' -> exists n, exec fmt cw n st p = Ok st'.
 Proof. exact Proofs.BstDoc.doc_complete. Qed.
 Print Assumptions doc_complete.
+
+(* --- program-level doc_sound: the typing is threaded through the whole derivation.  Every terminating run of a
+       program accepted by the type checker, from a well-formed state, with any fuel, is derivable in the big-step
+       semantics over the DOCUMENTED rules (Spec/BstDoc.v) -- no rule refers to the model's built-in code.
+       With doc_complete: on well-typed programs the interpreter implements exactly the documented language. *)
+Theorem doc_sound : forall fmt cw G ent tys cf s p s',
+  (forall n f, fmt n f <> Crash) -> ctx_ok G = true ->
+  check G ent tys cf s p = Some s' ->
+  forall n st st', state_ok G ent tys st -> sabs (st_stack st) s ->
+  exec fmt cw n st p = Ok st' ->
+  bigsteps fmt cw (builtin_doc fmt cw) st p st'.
+Proof. exact Proofs.BstDocSound.doc_sound. Qed.
+Print Assumptions doc_sound.
+
+Theorem doc_sound_real : forall cw G ent tys cf s p s',
+  ctx_ok G = true -> check G ent tys cf s p = Some s' ->
+  forall n st st', state_ok G ent tys st -> sabs (st_stack st) s ->
+  exec_real cw n st p = Ok st' ->
+  bigsteps real_fmt cw (builtin_doc real_fmt cw) st p st'.
+Proof. exact Proofs.BstReal.doc_sound_real. Qed.
+Print Assumptions doc_sound_real.
 
 Theorem while_sound : forall fmt cw n st p f st',
   while_loop fmt cw n st p f = Ok st' -> whilerel fmt cw (model_simple fmt cw) st p f st'.
@@ -426,17 +448,18 @@ Proof. exact Proofs.BstLaws.warning_law. Qed.
 Print Assumptions warning_law.
 
 (* --- type soundness: a program accepted by the checker of Spec/BstTyping.v (integers, strings / missing
-       fields, function literals, quoted variables; all built-ins except call.type$ and stack$; user functions
-       followed; int.to.chr$ : integer -> string; if$ branches must agree, while$ conditions leave one integer, bodies nothing), run from a
+       fields, function literals, quoted variables; ALL built-ins -- call.type$ is checked for every entry type [tys]
+       of the database, stack$ / top$ / int.to.str$ only where no function value or quoted variable would be
+       printed --; user functions followed; int.to.chr$ : integer -> string; if$ branches must agree, while$ conditions leave one integer, bodies nothing), run from a
        well-formed state, never raises a foreign Python exception -- whatever the fuel -- and when it ends
        normally the stack has the computed shape and the state is well-formed again.
        Hypothesis on the library function: format_name itself raises no foreign exception. *)
-Theorem welltyped_no_crash : forall fmt cw G ent cf s p s',
+Theorem welltyped_no_crash : forall fmt cw G ent tys cf s p s',
   (forall n f, fmt n f <> Crash) -> ctx_ok G = true ->
-  check G ent cf s p = Some s' ->
-  forall n st, state_ok G ent st -> sabs (st_stack st) s ->
+  check G ent tys cf s p = Some s' ->
+  forall n st, state_ok G ent tys st -> sabs (st_stack st) s ->
   exec fmt cw n st p <> Crash /\
-  (forall st', exec fmt cw n st p = Ok st' -> state_ok G ent st' /\ sabs (st_stack st') s').
+  (forall st', exec fmt cw n st p = Ok st' -> state_ok G ent tys st' /\ sabs (st_stack st') s').
 Proof. exact Proofs.BstTyping.welltyped_no_crash. Qed.
 Print Assumptions welltyped_no_crash.
 
@@ -455,18 +478,110 @@ Proof. exact Proofs.BstReal.format_name_law_real. Qed.
 Print Assumptions format_name_law_real.
 
 (* type soundness without any hypothesis about name formatting (C11's format_name_no_crash) *)
-Theorem welltyped_no_crash_real : forall cw G ent cf s p s',
-  ctx_ok G = true -> check G ent cf s p = Some s' ->
-  forall n st, state_ok G ent st -> sabs (st_stack st) s ->
+Theorem welltyped_no_crash_real : forall cw G ent tys cf s p s',
+  ctx_ok G = true -> check G ent tys cf s p = Some s' ->
+  forall n st, state_ok G ent tys st -> sabs (st_stack st) s ->
   exec_real cw n st p <> Crash /\
-  (forall st', exec_real cw n st p = Ok st' -> state_ok G ent st' /\ sabs (st_stack st') s').
+  (forall st', exec_real cw n st p = Ok st' -> state_ok G ent tys st' /\ sabs (st_stack st') s').
 Proof. exact Proofs.BstReal.welltyped_no_crash_real. Qed.
 Print Assumptions welltyped_no_crash_real.
 
-Theorem state_ok_start : forall G st, ctx_ok G = true -> st_vars st = G -> st_evars st = [] -> st_buf st = [] ->
-  state_ok G false st.
+Theorem state_ok_start : forall G tys st, ctx_ok G = true -> st_vars st = G -> st_evars st = [] -> st_buf st = [] ->
+  state_ok G false tys st.
 Proof. exact Proofs.BstTyping.state_ok_start. Qed.
 Print Assumptions state_ok_start.
+
+
+(* --- the commands: what each adds to which table ------------------------------------------------------------
+   [fresh names vars]: the names are pairwise different up to letter case and none is bound in [vars]. *)
+(* ENTRY: fields, the implicit crossref, entry integers, entry strings are appended, in this order *)
+Theorem entry_declares : forall fmt cw fuel st fields ints strs,
+  fresh (fields ++ [nm_crossref] ++ ints ++ strs) (st_vars st) ->
+  run_command fmt cw fuel st (Cmd nm_entry [map IId fields; map IId ints; map IId strs]) =
+  Ok (set_vars st (st_vars st ++ map (fun n => (lower n, OField n)) fields ++ [(nm_crossref, OCrossref)]
+                            ++ map (fun n => (lower n, OEInt n)) ints ++ map (fun n => (lower n, OEStr n)) strs)).
+Proof. exact Proofs.BstCommands.entry_declares. Qed.
+Print Assumptions entry_declares.
+
+(* ... and a name that is already bound (built-in, variable, function, earlier field -- also "crossref") is BibTeX's
+   "already declared" error *)
+Theorem declare_bound : forall mk n r st o, alookup str_eqb (lower n) (st_vars st) = Some o ->
+  declare mk (IId n :: r) st = PyErr E_BST (-1).
+Proof. exact Proofs.BstCommands.declare_bound. Qed.
+Print Assumptions declare_bound.
+
+Theorem function_declares : forall fmt cw fuel st f body, alookup str_eqb (lower f) (st_vars st) = None ->
+  run_command fmt cw fuel st (Cmd nm_function [[IId f]; body]) = Ok (set_vars st (st_vars st ++ [(lower f, OFun body)])).
+Proof. exact Proofs.BstCommands.function_declares. Qed.
+Print Assumptions function_declares.
+
+Theorem function_redeclared : forall fmt cw fuel st f body o, alookup str_eqb (lower f) (st_vars st) = Some o ->
+  run_command fmt cw fuel st (Cmd nm_function [[IId f]; body]) = PyErr E_BST (-1).
+Proof. exact Proofs.BstCommands.function_redeclared. Qed.
+Print Assumptions function_redeclared.
+
+(* INTEGERS / STRINGS bind each name to a new global holding 0 / "" ... *)
+Theorem integers_declares : forall fmt cw fuel st names,
+  run_command fmt cw fuel st (Cmd nm_integers [map IId names]) = Ok (set_vars st (bind_all (OInt (VInt 0)) names (st_vars st))).
+Proof. exact Proofs.BstCommands.integers_declares. Qed.
+Print Assumptions integers_declares.
+
+Theorem strings_declares : forall fmt cw fuel st names,
+  run_command fmt cw fuel st (Cmd nm_strings [map IId names]) = Ok (set_vars st (bind_all (OStr (VStr [])) names (st_vars st))).
+Proof. exact Proofs.BstCommands.strings_declares. Qed.
+Print Assumptions strings_declares.
+
+(* ... but, unlike ENTRY and FUNCTION (and unlike BibTeX), WITHOUT the "already declared" check: the documented
+   behaviour "re-declaring a name is an error" is refuted by the faithful model (finding C03-F2):
+   INTEGERS {swap$} silently turns the built-in swap$ into an integer variable *)
+Theorem integers_redeclaration_is_error_refuted : exists fmt cw st names o,
+  (exists n, In n names /\ vlookup n (st_vars st) = Some o) /\
+  exists st', run_command fmt cw 0 st (Cmd nm_integers [map IId names]) = Ok st' /\
+              vlookup (s2l "swap$") (st_vars st') = Some (OInt (VInt 0)).
+Proof.
+  exists (fun _ _ => Ok []), (fun _ => 0%Z), (initial_state [] []), [s2l "swap$"], (OBuiltin B_swap). split.
+  - exists (s2l "swap$"). split; [left; reflexivity|vm_compute; reflexivity].
+  - eexists. split; vm_compute; reflexivity.
+Qed.
+Print Assumptions integers_redeclaration_is_error_refuted.
+
+Theorem macro_declares : forall fmt cw fuel st name value,
+  run_command fmt cw fuel st (Cmd nm_macro [[IId name]; [IStr value]]) =
+  Ok (set_macros st (aset lit_eqb (LStr name) (LStr value) (st_macros st))).
+Proof. exact Proofs.BstCommands.macro_declares. Qed.
+Print Assumptions macro_declares.
+
+Theorem execute_runs : forall fmt cw fuel st f,
+  run_command fmt cw fuel st (Cmd nm_execute [[IId f]]) = exec fmt cw fuel st [IId f].
+Proof. exact Proofs.BstCommands.execute_runs. Qed.
+Print Assumptions execute_runs.
+
+(* READ installs what the database reader found: citation list, entries, preamble, reports *)
+Theorem read_installs : forall fmt cw fuel st d more, st_reads st = d :: more ->
+  run_command fmt cw fuel st (Cmd nm_read []) =
+  Ok (add_warn (set_cites (set_db st (Some d) more) (r_cites d)) (repeat WRead (r_warnings d))).
+Proof. exact Proofs.BstCommands.read_installs. Qed.
+Print Assumptions read_installs.
+
+(* READ then ITERATE: with C06's reader (engine_read = C05's command_read over the entries of the files) the function
+   visits exactly C05's resolution -- the explicit citations (wildcard expanded, first spelling kept) followed by the
+   cross-referenced parents that reach the threshold, minus the keys that are not in the database -- in that order.
+   Hypothesis left as a bridge: every selected citation has an entry in the READ data (C06's stored_entries vs C05's
+   bd_entries membership). *)
+Theorem read_then_iterate_visits_resolved : forall fmt cw n st db m more f cite write,
+  let d := Engines.engine_read db (st_cites st) m in
+  let E := Citations.bd_entries (Citations.read_db (Some (st_cites st)) (map Engines.proj db)) in
+  let ex := Spec.Citations.explicit_spec E (st_cites st) in
+  st_reads st = d :: more ->
+  vlookup f (st_vars st) = Some (OFun [IId cite; IId write]) ->
+  vlookup cite (st_vars st) = Some (OBuiltin B_cite) ->
+  vlookup write (st_vars st) = Some (OBuiltin B_write) ->
+  (forall k, In k (r_cites d) -> alookup str_eqb k (r_entries d) <> None) ->
+  exists st', run fmt cw (3 + n) st [Cmd nm_read []; Cmd nm_iterate [[IId f]]] = Ok st' /\
+    st_buf st' = st_buf st ++
+      map VStr (filter (fun c => Citations.ed_mem c E) (ex ++ Spec.Citations.crossrefs_spec E ex m)).
+Proof. exact Proofs.BstCommands.read_then_iterate_visits_resolved. Qed.
+Print Assumptions read_then_iterate_visits_resolved.
 
 (* ---------------------------------------------------------------------------------- *)
 (* non-vacuity: the hypotheses are met by the interpreter's real initial state, and the
@@ -566,11 +681,11 @@ Definition prog1 :=
    IId (s2l "gi"); IFun [IStr (s2l "yes")]; IFun [IInt 65; IId (s2l "int.to.chr$")]; IId (s2l "if$");
    IId (s2l "duplicate$"); IId (s2l "*"); IQuote (s2l "gs"); IId (s2l ":="); IId (s2l "newline$")].
 Example welltyped_example :
-  ctx_ok G1 = true /\ check G1 false 40 [] prog1 = Some [] /\
+  ctx_ok G1 = true /\ check G1 false [] 40 [] prog1 = Some [] /\
   (* ... and it is not accepted when an operand has the wrong kind *)
-  check G1 false 40 [] [IStr (s2l "a"); IInt 1; IId (s2l "+")] = None /\
-  check G1 false 40 [] [IInt 2147483648; IId (s2l "int.to.chr$")] = Some [AStr] /\
-  check G1 false 40 [] [IInt 65; IId (s2l "int.to.chr$")] = Some [AStr].
+  check G1 false [] 40 [] [IStr (s2l "a"); IInt 1; IId (s2l "+")] = None /\
+  check G1 false [] 40 [] [IInt 2147483648; IId (s2l "int.to.chr$")] = Some [AStr] /\
+  check G1 false [] 40 [] [IInt 65; IId (s2l "int.to.chr$")] = Some [AStr].
 Proof. vm_compute. repeat split. Qed.
 Example welltyped_run_example :
   let st := set_vars (initial_state [] []) G1 in
@@ -597,3 +712,9 @@ Example format_name_real_example :
    with Ok s => Some s | _ => None end)
   = Some [VStr (s2l "Donald~Ervin Knuth"); VStr (s2l "Donald~Ervin~Knuth")].
 Proof. vm_compute. reflexivity. Qed.
+
+(* ENTRY in the interpreter's initial state: the hypothesis of entry_declares is met, and ENTRY {crossref} is an error *)
+Example entry_example :
+  fresh ([s2l "title"; s2l "Author"] ++ [nm_crossref] ++ [s2l "n"] ++ [s2l "label"]) (st_vars st0) /\
+  run_command fmt0 cw0 0 st0 (Cmd nm_entry [[IId nm_crossref]; []; []]) = PyErr E_BST (-1).
+Proof. split; [|vm_compute; reflexivity]. cbn [app fresh]. repeat split; try (vm_compute; reflexivity); vm_compute; intuition discriminate. Qed.
